@@ -313,9 +313,9 @@ class RunningOrder(MosFile):
         """
         Find the story with *story_id* and return a tuple of (element, index)
         """
-        for i, story in enumerate(self.stories):
-            if story.id == story_id:
-                return (story.xml, i)
+        story, index = find_child_by_id(parent=self.base_tag, child_tag='story', id=story_id)
+        if story is not None:
+            return (story, index)
         raise ValueError("Story not found")
 
     def inspect(self):
